@@ -166,6 +166,18 @@ def explore(ck: Check, slow: bool) -> None:
                 ck.fail("registration-order", "a later registration for .csv did not replace the earlier one", {})
         if reg.suffix_map[".dat"].__name__ != "First":
             ck.fail("registration-order", "registering .csv again disturbed .dat", {})
+        @reg.file_suffix(".aa", ".bb", ".cc", ".dd")
+        class Many(CSV_Workbook):
+            pass
+
+        ck.oracle_evaluations += 1
+        lost = [sfx for sfx in (".aa", ".bb", ".cc", ".dd") if reg.suffix_map.get(sfx) is not Many]
+        if lost:
+            ck.fail("registration-order", f"one registration naming four suffixes: {lost} are not registered", {"suffixes": lost})
+        ck.oracle_evaluations += 1
+        missing = [sfx for sfx in (".csv", ".json", ".ndjson", ".jsonnl", ".xls", ".xlsx", ".ods", ".numbers") if sfx not in file_registry.suffix_map]
+        if missing:
+            ck.fail("registration-order", f"built-in suffixes not registered: {missing}", {"suffixes": missing})
         reqs.append("FAC open .csv .dat=First .csv=First .csv=Second")
         impl.append("Second")
         inputs.append({"registry": "private"})
